@@ -743,11 +743,10 @@ def _work(items):
             big = "number-beyond-2^53" in fl
             v = rfc_validity(q)
             if v is not None and v != "valid":
-                if v == "unjudged" and big and rfc_validity(_SMALLNUM.sub("1", q)) == "valid":
-                    stats["bignum_judged_by_standin"] += 1  # valid but for the number range: see rule
-                else:
-                    stats["unjudged"] += 1
-                    continue
+                # number literals beyond 2^53-1 are outside C12's quantifier ("within the exactly-representable
+                # range", DESIGN App. D): unjudged, like everything else the oracle does not decide
+                stats["unjudged"] += 1
+                continue
             stats["judged"] += 1
             if has_filter(ast) or len(ast[2]) >= 2 or fl:
                 stats["nontrivial"] += 1
